@@ -100,8 +100,31 @@ def extra(report, env):
         cases += 1
         if (r1 != r2 or seen[0] != seen[1]) and len(fails) < 5:
             fails.append({'formula': a + '+1', 'detail': 'case changed the outcome: %r %r %r' % (r1, r2, seen)})
+    # ... in everything a handler can observe of the cell / range corners (label, row and column index / label / is_absolute)
+    import itertools
+
+    def view(c):
+        return (c.label, c.row.index, c.row.label, c.row.is_absolute, c.col.index, c.col.label, c.col.is_absolute)
+    p2 = e2e.new_parser()
+    got = []
+    p2.on('callCellValue', lambda cell, setter: (got.append(('cell', view(cell))), setter(5)))
+    p2.on('callRangeValue', lambda a, b, setter: (got.append(('range', view(a), view(b))), setter([[1, 2], [3, 4]])))
+    for ref in ('a1', '$b$2', 'ab12', 'a1:b3', '$a$1:$b$3', 'b3:a1', 'aa3:ab$10', 'c$2:$c4', 'xfd1', 'a1:xfd2'):
+        letters = [i for i, ch in enumerate(ref) if ch.isalpha()]
+        outcomes = set()
+        for mask in itertools.product((0, 1), repeat=len(letters)):
+            t = list(ref)
+            for i, m in zip(letters, mask):
+                t[i] = t[i].upper() if m else t[i].lower()
+            del got[:]
+            text = 'SUM(%s)' % ''.join(t)
+            r = p2.parse(text)
+            cases += 1
+            outcomes.add(repr((r, got)))
+        if len(outcomes) != 1 and len(fails) < 5:
+            fails.append({'formula': 'SUM(%s)' % ref, 'detail': 'the case of the reference changes what the handler sees or the outcome: %s' % sorted(outcomes)[:2]})
     bounded(report, 'C05.lexical', 'whitespace from {space, tab, newline, runs} at every token boundary of 14 token lists (seeded), all 2^n blank '
-            'patterns n<=6 x 3 separators, array literals, seeded literals up to 18+12 digits (exact), quoted texts, label case', cases, fails)
+            'patterns n<=6 x 3 separators, array literals, seeded literals up to 18+12 digits (exact), quoted texts, label case (every upper/lower pattern of 10 cell / range references, full handler view)', cases, fails)
 
 
 def replay(rp):
